@@ -55,8 +55,9 @@ def init (n gens : Nat) (yielding : Bool) : State :=
   { n := n, gens := gens, yielding := yielding, thr := { pc := .start } :: List.replicate n { pc := .start } }
 
 def pcOf (s : State) (t : Nat) : Pc := (s.thr[t]?.map (·.pc)).getD .finished
-def setPc (s : State) (t : Nat) (pc : Pc) : State :=
-  { s with thr := s.thr.modify t fun th => { th with pc := pc } }
+/-- update the record of thread `t` -/
+def upd (s : State) (t : Nat) (f : Thread → Thread) : State := { s with thr := s.thr.modify t f }
+def setPc (s : State) (t : Nat) (pc : Pc) : State := upd s t fun th => { th with pc := pc }
 def ev (t : Nat) (e : String) : String := s!"{t}:{e}"
 
 def enabled (s : State) (t : Nat) : Bool :=
@@ -74,10 +75,8 @@ def unfinished (s : State) (t : Nat) : Bool :=
 
 def out (s : State) (evs : List String) : Option (StepOut State) := some { st := s, evs := evs }
 
-/-- `wait()` returns: ghost `left`, next call or thread end -/
-def leave (s : State) (t : Nat) (th : Thread) : State × List String :=
-  let nxt : Pc := if th.left + 1 < s.gens then .loadStep else .finished
-  ({ s with thr := s.thr.modify t fun th => { th with left := th.left + 1, pc := nxt } }, [ev t s!"left{th.left}"])
+/-- pc after `wait()` returned for the (left+1)-th time -/
+def nextCall (s : State) (th : Thread) : Pc := if th.left + 1 < s.gens then .loadStep else .finished
 
 def step (s : State) (t : Nat) (_c : Nat) : Option (StepOut State) :=
   match s.thr[t]? with
@@ -98,19 +97,21 @@ def step (s : State) (t : Nat) (_c : Nat) : Option (StepOut State) :=
     else none
   | .loadStep => out (setPc s t (.fetchAdd s.step)) [ev t s!"ld(step)={s.step}"]
   | .fetchAdd ts =>
-    let old := s.waiting
-    let s1 := { s with waiting := old + 1, thr := s.thr.modify t fun th => { th with arrived := th.arrived + 1 } }
-    out (setPc s1 t (if old = s.n - 1 then .storeWaiting else .spin ts false)) [ev t s!"rmw(waiting)={old + 1}"]
+    -- waiting_.fetch_add(1) == thread_count_   (thread_count_ = n - 1)
+    let nxt : Pc := if s.waiting = s.n - 1 then .storeWaiting else .spin ts false
+    out (upd { s with waiting := s.waiting + 1 } t fun th => { th with pc := nxt, arrived := th.arrived + 1 })
+        [ev t s!"rmw(waiting)={s.waiting + 1}"]
   | .storeWaiting =>
+    -- waiting_.store(0); lambda();
     out (setPc { s with waiting := 0, actions := s.actions + 1 } t .bumpStep) [ev t "st(waiting)=0", ev t s!"act{s.actions}"]
   | .bumpStep =>
-    let (s1, evs) := leave { s with step := s.step + 1 } t th
-    out s1 (ev t s!"rmw(step)={s.step + 1}" :: evs)
+    -- step_.fetch_add(1); return
+    out (upd { s with step := s.step + 1 } t fun th => { th with left := th.left + 1, pc := nextCall s th })
+        [ev t s!"rmw(step)={s.step + 1}", ev t s!"left{th.left}"]
   | .spin ts seen =>
     if !seen || s.step != ts then
       if s.step != ts then
-        let (s1, evs) := leave s t th
-        out s1 (ev t s!"ld(step)={s.step}" :: evs)
+        out (upd s t fun th => { th with left := th.left + 1, pc := nextCall s th }) [ev t s!"ld(step)={s.step}", ev t s!"left{th.left}"]
       else out (setPc s t (if s.yielding then .yield ts else .spin ts true)) [ev t s!"ld(step)={s.step}"]
     else none
   | .yield ts => out (setPc s t (.spin ts true)) [ev t "yield"]
